@@ -247,6 +247,7 @@ def plan(pid, tier):
                         + sweep_jobs('h_codec', 'c05_decode_sweep', 6 if q else 8) + sweep_jobs('h_codec', 'c05_decode_sweep', 4 if q else 8, variant='asan-nosse'))
     P['C07'] = lambda: (rc_jobs('h_format', 'c07', 12, 1500 if q else 40000) + sweep_jobs('h_format', 'c07_sweep', 4))
     P['C08'] = lambda: (rc_jobs('h_format', 'c08', 10, 1500 if q else 40000) + sweep_jobs('h_format', 'c08_sweep', 6))
+    P['C06'] = lambda: (rc_jobs('h_needed', 'c06', 8, 3000 if q else 80000) + sweep_jobs('h_needed', 'c06_xor_sweep', 4) + sweep_jobs('h_needed', 'c06_rs_sweep', 4 if q else 12))
     P['C09'] = lambda: (rc_jobs('h_header', 'c09', 12, 2500 if q else 60000) + sweep_jobs('h_header', 'c09_sweep', 4))
     P['C10'] = lambda: (rc_jobs('h_header', 'c10', 10, 2500 if q else 60000) + sweep_jobs('h_header', 'c10_sweep', 2) + rc_jobs('h_header', 'c10_alt', 2, 5000 if q else 100000))
     P['C11'] = lambda: rc_jobs('h_header', 'c11', 16, 2500 if q else 60000)
@@ -265,6 +266,7 @@ RULES = {
     'C05': 'enumerated: 38 tables x (library bitmaps vs golden equations in both directions, minimum distance by GF(2) rank over all erasure sets <= hd, encode with one non-zero data fragment at a time and with random data for payload sizes 4..4100, every erasure set below hd decoded and reconstructed, SSE2 and portable builds), and every (k,m,hd) in 0..33 x 0..8 x 0..7 outside the 38 refused. Non-trivial: >=2 erasures or a parity rebuilt (decode sweep); every table/encode case.',
     'C07': 'rapidcheck-generated (backend incl. null, shape, w, checksum type incl. MD5, legacy-CRC env, length, content) + one case per shape per backend: every byte of every fragment vs an independent serializer (literal offsets, independent GF and CRC models). Non-trivial: CRC32, length not a multiple of k*wordsize, non-constant data.',
     'C08': 'rapidcheck-generated (backend incl. null, shape, length to 2^20) + dense sweep of all lengths 0..4*k*ws+2 for 40+ configurations: the three size queries vs arithmetic and vs what encode produced; dead/never-issued/negative descriptors refused. Non-trivial: length not a multiple of k*wordsize.',
+    'C06': 'enumerated: all 38 flat-XOR tables x all disjoint (R non-empty, X) with |R|+|X|<hd in both list orders; RS n<=8 (quick) / n<=12 (thorough) and ISA-L n<=6/10 x all (R,X) with |R|+|X|<=m; rapidcheck-generated pairs for larger shapes incl. beyond tolerance. Oracle on the returned list (n-int output buffer behind an ASan red zone): termination, range, distinctness, disjointness, sufficiency (RS/ISA: exactly k and reconstruct from only those fragments reproduces each requested fragment; XOR: GF(2) span + XOR of the actual payloads). Beyond tolerance: error or a list passing the same test. Non-trivial: X hits the unconstrained answer, or |R|>=2.',
     'C09': 'base headers from real fragments over all back ends/checksum types/legacy or standard metadata CRC; mutation programs (bit flips, byte sets, multi-byte edits, version and magic rewrites, field-wise endianness conversion) followed by one of 7 re-seal variants; sweep: all 640 single-bit flips with and without re-seal for 40 base headers. Oracle: independent accept predicate for header validation, the metadata query, decode and reconstruct (-EBADHEADER exactly when unacceptable); bytes unchanged. Non-trivial: header changed and (reference rejects, or re-sealed, or version/magic/endianness touched).',
     'C10': 'CRC32 configurations x writer env value x reader env value x source (encode or reconstruct) x payload corruption (single bit, burst, byte, stored-field rewrites re-sealed); sweep: every single-bit flip of payloads of 2..64 bytes; plus liberasurecode_crc32_alt vs a bit-serial model on generated buffers. Non-trivial: payload contains a byte >= 0x80 and a corruption was applied.',
     'C11': 'fragment from encode (all back ends, both checksum types), optional asymmetric overwrite of fields that read the same both ways, optional payload bit flip; twin = field-wise byte-swapped header with swapped CRC. Oracle: metadata(twin) == metadata(native) field by field, equal return codes and header verdicts. Non-trivial: CRC32 fragment with corrupted payload.',
@@ -331,6 +333,8 @@ def replay_case(pid, path, vdirs, times=3):
 MODE_HARNESS = {}
 for _m in ['c09', 'c09_sweep', 'c10', 'c10_sweep', 'c10_alt', 'c11', 'c12']:
     MODE_HARNESS[_m] = ('h_header', 'asan')
+for _m in ['c06', 'c06_xor_sweep', 'c06_rs_sweep']:
+    MODE_HARNESS[_m] = ('h_needed', 'asan')
 for _m in ['c07', 'c07_sweep', 'c08', 'c08_sweep', 'c04_matrix', 'c04_parity', 'c05_tables', 'c05_encode', 'c05_unsupported']:
     MODE_HARNESS[_m] = ('h_format', 'asan')
 for _m in ['c05_decode_sweep', 'c01', 'c01_xor_sweep', 'c01_rs_sweep', 'c01_isa_sweep', 'c02', 'c02_subsets', 'c02_band', 'c03', 'c03_xor_sweep', 'c03_rs_sweep', 'c20']:
